@@ -337,6 +337,15 @@ class Program:
                          and isinstance(st.targets[0], ast.Name) and st.targets[0].id == expr.id]
                 other = [n for n in ast.walk(scope.node) if isinstance(n, ast.Name) and n.id == expr.id
                          and isinstance(n.ctx, ast.Store) and not any(n is st.targets[0] for st in binds)]
+                if len(binds) == 2 and not other and expr.id not in scope.params:
+                    # `if flag: x = A` / `else: x = B`: the conditional expression `A if flag else B`
+                    for ifst in ast.walk(scope.node):
+                        if isinstance(ifst, ast.If) and len(ifst.body) == 1 and len(ifst.orelse) == 1 \
+                                and ifst.body[0] is binds[0] and ifst.orelse[0] is binds[1]:
+                            found = ast.copy_location(ast.IfExp(test=ifst.test, body=binds[0].value, orelse=binds[1].value), ifst)
+                            break
+                    if found is not None:
+                        break
                 if expr.id in scope.params or other or len(binds) > 1:
                     break
                 if len(binds) == 1:
